@@ -8,3 +8,10 @@ import Shentu.Proofs.BankLemmas
 import Shentu.Proofs.OracleLemmas
 import Shentu.Props.C14
 import Shentu.Props.C15
+import Shentu.Base.Dec
+import Shentu.Model.Cert
+import Shentu.Model.Gov
+import Shentu.Proofs.GovLemmas
+import Shentu.Props.C11
+import Shentu.Props.C12
+import Shentu.Props.C13
